@@ -849,6 +849,10 @@ Hdupdd(int32  file_id, /* IN: File ID the tag/refs are in */
     if (BADFREC(file_rec))
         HGOTO_ERROR(DFE_ARGS, FAIL);
 
+    /* The new tag/ref must not be in use already */
+    if (HDcheck_tagref(file_id, tag, ref) != 0)
+        HGOTO_ERROR(DFE_DUPDD, FAIL);
+
     /* Attach to the old DD in the file */
     if ((old_dd = HTPselect(file_rec, old_tag, old_ref)) == FAIL)
         HGOTO_ERROR(DFE_NOMATCH, FAIL);
